@@ -18,7 +18,7 @@ import z3
 
 from . import extract, solve
 from .contracts import lookup as lookup_contract, parse_expr, LoopSpec, SPEC_NAMES
-from .sym import (SInt, SBool, SSeq, SEnum, SOpt, Opaque, Obj, ExcVal, OutOfFragment,
+from .sym import (SInt, SBool, SSeq, SEnum, SOpt, Opaque, Obj, ExcVal, OutOfFragment, SDict,
                   IntSeq, fresh, reset_names, seq_of, seq_lower, seq_concat, int_term,
                   bool_term, lower_int, lower_bool, is_symbolic, taint_of)
 
@@ -99,6 +99,7 @@ class SList(object):
         self.elem_factory = elem_factory   # f(path, tag) -> fresh element value
         self.prefix = list(prefix or [])   # concrete known first elements
         self.taint = taint
+        self.members = []                  # elements witnessed on this path (loop variables)
 
     def __repr__(self):
         return "SList(%s,len=%s)" % (self.name, self.length)
@@ -569,6 +570,27 @@ def concretize(v, model, memo):
         return {concretize(k, model, memo): concretize(x, model, memo) for k, x in v.items()}
     if isinstance(v, Opaque):
         return "<opaque %s>" % v.name
+    if isinstance(v, SDict):
+        if id(v) in memo:
+            return memo[id(v)]
+        d = {}
+        memo[id(v)] = d
+        for kid, opt in v.memo.items():
+            if z3.is_true(model.eval(opt.isnone, model_completion=True)):
+                continue
+            k = concretize(v.keys_[kid], model, memo)
+            try:
+                hash(k)
+            except TypeError:
+                k = repr(k)
+            d[k] = concretize(opt.v, model, memo)
+        return d
+    if isinstance(v, SList):
+        n = model.eval(v.length, model_completion=True).as_long() if not isinstance(v.length, int) else v.length
+        ms = [concretize(x, model, memo) for x in v.members]
+        return ms + [ms[-1] if ms else 'g'] * max(0, min(n, 4) - len(ms)) if n > 0 else []
+    if isinstance(v, (BoundMethod, Closure, SuperProxy)):
+        return repr(v)
     return v
 
 
@@ -687,6 +709,8 @@ class Interp(object):
         if isinstance(v, SList):
             n = v.length
             return (n > 0) if not isinstance(n, int) else n > 0
+        if isinstance(v, SDict):
+            return z3.Not(v.empty)
         if isinstance(v, Obj):
             # objects are truthy unless the class defines __bool__/__len__
             if self._class_attr(v.cls, '__bool__') is not None or \
@@ -743,6 +767,8 @@ class Interp(object):
             return v.cls
         if isinstance(v, SList):
             return list
+        if isinstance(v, SDict):
+            return dict
         if isinstance(v, Opaque):
             return {'str': str, 'bytes': bytes, 'int': int, 'bool': bool, 'list': list,
                     'dict': dict, 'float': float}.get(v.pykind, None)
@@ -1079,7 +1105,7 @@ class Interp(object):
             if name == 'name':
                 return Opaque('str', 'enum.name', facts={'nonempty'})
             return getattr(self.resolve_enum(v), name)
-        if isinstance(v, (SSeq, SInt, SBool, MutBytes, SList)) or \
+        if isinstance(v, (SSeq, SInt, SBool, MutBytes, SList, SDict)) or \
                 (isinstance(v, (bytes, str, list, dict, tuple, set, int, bytearray, frozenset))
                  and not isinstance(v, enum.Enum)):
             return self.models.builtin_method(self, v, name)
